@@ -205,6 +205,11 @@ func runProxy(sc proxyScen, idx int) (*proxyTrace, error) {
 			if err != nil {
 				return
 			}
+			if tc, ok := c.(*tls.Conn); ok {
+				// (crypto/tls refuses CloseWrite before the handshake is complete: an upstream with nothing to send would
+				// never get its end of stream out)
+				tc.Handshake()
+			}
 			s.conn.Store(c)
 			s.obs.Opened = true
 			payload := upStream(u, sc.Usize)
